@@ -349,11 +349,23 @@ macro_rules! timed_runner {
           "buffer_with_count_and_time" => {
             input.buffer_with_count_and_time(a[0].usize(), ms(a[1].int() as u64), sch.clone()).map(Val::L).box_it()
           }
+          "throttle" => input.clone(),
           h => panic!("bad timed2 op {h}"),
         };
-        let mut subs = vec![];
+        let mut subs: Vec<Option<BoxSubscription<'static>>> = vec![];
         for i in 0..2 {
-          subs.push(Some(timed.clone().actual_subscribe(TProbe2 { id: i, log: log.clone() })));
+          if op.head() == "throttle" {
+            // throttle's operator value cannot be cloned: two values built alike stand in for the clones
+            let edge = match a[1].atom() {
+              "leading" => ThrottleEdge::leading(),
+              "tailing" => ThrottleEdge::tailing(),
+              _ => ThrottleEdge::all(),
+            };
+            let t = src.clone().throttle_time(ms(a[0].int() as u64), edge, sch.clone());
+            subs.push(Some(BoxSubscription::new(t.actual_subscribe(TProbe2 { id: i, log: log.clone() }))));
+          } else {
+            subs.push(Some(BoxSubscription::new(timed.clone().actual_subscribe(TProbe2 { id: i, log: log.clone() }))));
+          }
         }
         let mut tasks: Vec<Option<SpawnedTask>> = vec![];
         let collect = |tasks: &mut Vec<Option<SpawnedTask>>| {
